@@ -576,7 +576,7 @@ def oracle_run(spec: dict, pspec, fault: str | None = None, max_rounds: int | No
     size = model_size(model)
     # convergence is required of every built-in pass on its own (and of functionalize(P)); an arbitrary
     # Sequential/PassManager composition may oscillate (e.g. Remove- then AddInitializersToInputs) -- not checked
-    composite = not isinstance(pspec, str) and "fun" not in pspec
+    composite = not isinstance(pspec, str) and not ("fun" in pspec and isinstance(pspec["fun"], str))
     bound = size + 2 if max_rounds is None else max_rounds
     if composite and max_rounds is None:
         bound = 3
@@ -816,6 +816,8 @@ def gen_graph(rng, depth: int, prefix: str, outer: list[str], rich: bool, opset:
             g["outputs"].append(rng.choice(cands))
     if not top:
         g["outputs"] = g["outputs"][:1]
+        if g["inits"] and rng.random() < 0.12:
+            g["outputs"] = [rng.choice(g["inits"])["h"]]        # a subgraph returning its own initializer directly
         if nouts == 2:
             g["outputs"].append(g["outputs"][0] if rng.random() < 0.6 else rng.choice(cands))
     # disorder: swap two nodes in some graphs
